@@ -76,6 +76,17 @@ static _Bool retired(const uint8_t *p) { for (unsigned i = 0; i < 4; i++) if (i 
 typedef __typeof__(*(AOCS_a0)0) NODE_T;
 uint64_t IN_K, IN_vlen; unsigned IN_depth; _Bool IN_cached;
 static uint8_t *G_obj, *G_db, *G_val, *G_cached0; static struct nview GV0, GV1; static uint8_t G_b; static struct stats S0, S1;
+#ifdef HAVE_P_GROW
+/* KIND 2, 3 at capacity: the data-copy routine basic_inode_N::init(db, smaller source node, leaf, depth) is OUTSIDE this proof (its loops over the
+ * 256-entry index do not close here within the budget).  What this proof needs from it: no lock operation - a static fact checked on the IR on
+ * every run (job olc.copy-routines.no-locks) - and that it takes the leaf's ownership (the by-value unique_ptr is released).  Its effects on
+ * node memory, statistics and the retire ledger are NOT modelled: the C10 / C04-seq postconditions of the growth are not claimed for these classes. */
+static unsigned G_pgrow;
+void P_GROW(P_GROW_a0 self, P_GROW_a1 db, P_GROW_a2 src, P_GROW_a3 child_up, P_GROW_a4 depth) {
+  __CPROVER_assert((uint8_t *)src == G_obj && OBS[1] && !WHELD[1] && WHELD[0], "C04-seq: the replaced node is obsolete (and unlocked), the parent still write-locked, when the routine that hands it to reclamation runs");
+  *(uint8_t **)((uint8_t *)child_up + LAY_LEAFUP_PTR) = 0; G_pgrow++;
+}
+#endif
 static _Bool node_wf(const struct nview *v) {
 #if KIND <= 2
   return nv_wf_small(v);
@@ -165,9 +176,13 @@ void harness(void) {
 #if KIND <= 3
     uint8_t *bigger = lg_alloc_p[lg_allocs - 1];
     __CPROVER_assert(lg_allocs == (IN_cached ? 1u : 2u) && lg_alloc_sz[lg_allocs - 1] == n_size(KIND + 1) && *slot_in_parent == adt_tag(bigger, KIND + 1), "C10: at capacity the node is replaced by a new node of the next larger class");
+#ifdef HAVE_P_GROW
+    __CPROVER_assert(G_pgrow == 1 && OBS[1] && lg_frees == 0, "the replaced node is made obsolete, nothing is freed directly (its retirement is inside the copy routine, not modelled)");
+#else
     __CPROVER_assert(G_nret == 1 && retired(G_obj) && OBS[1] && lg_frees == 0, "C04-seq: the replaced node is made obsolete and retired once, nothing is freed directly");
     d5[KIND] = -1; d5[KIND + 1] = 1; g4[KIND] = 1;
     stats_check(&S0, &S1, (IN_cached ? 0 : (int64_t)leafsz) + (int64_t)n_size(KIND + 1) - (int64_t)n_size(KIND), d5, g4, Z4, 0);
+#endif
     VERIF_CANARY("growth reachable");
 #else
     __CPROVER_assert(0, "a full N256 has a child for every key byte");
